@@ -141,9 +141,10 @@ class FilterStore(Store):
         get = BoundClass(FilterStoreGet)
 
     def _do_get(self, event: FilterStoreGet) -> bool:
-        for item in self.items:
+        for idx, item in enumerate(self.items):
             if event.filter(item):
-                self.items.remove(item)
+                # not self.items.remove(item): that removes the first *equal* item
+                del self.items[idx]
                 event.succeed(item)
                 break
         return True
